@@ -84,8 +84,18 @@ def history(hid, rng):
         xconfig = np.array([[rng.choice(cand) for _ in range(npar)] for _ in range(ncross)], dtype="int64")
         nm, npg = (1, per) if rng.random() < 0.5 else (per, 1)
         prot = cls(rng=nrng if rng.random() < 0.5 else np.random.RandomState(rng.randrange(2 ** 32)))
-        pop = prot.mate(pop, xconfig, nm, npg, nself=rng.choice([0, 0, 1, 2]))
-        gens.append(observe(model, pop, rng.choice(["matrix", "array"])))
+        prog = prot.mate(pop, xconfig, nm, npg, nself=rng.choice([0, 0, 1, 2]))
+        if rng.random() < 0.4 and pop.ntaxa + prog.ntaxa <= 300:
+            # the programme keeps ONE population object and edits it in place: the cohort joins (overlapping
+            # generations), the limits are queried, then the parents are culled
+            nold = pop.ntaxa
+            pop.append_taxa(prog.mat, taxa=prog.taxa, taxa_grp=prog.taxa_grp)
+            gens.append(observe(model, pop, "matrix"))
+            pop.remove_taxa(np.arange(nold))
+            gens.append(observe(model, pop, "matrix"))
+        else:
+            pop = prog
+            gens.append(observe(model, pop, rng.choice(["matrix", "array"])))
     return {"id": hid, "u": u.astype(int).tolist(), "beta": beta.astype(int).ravel().tolist(), "gens": gens}
 
 
